@@ -133,7 +133,7 @@ def _paren_work(task):
 def run(tier):
     R = core.Run(PID, tier, "exploration")
     quick = tier == "quick"
-    pool = progpool.build_pool(tier, parts=("A", "M", "K1"))
+    pool = progpool.build_pool(tier, parts=("A", "M", "K1"), model_tier="quick")
     items = []
     for origin, text in pool:
         toks = corpus.lex_tokens(text)
